@@ -584,8 +584,8 @@ func init() {
 		var mu sync.Mutex
 		cfg := e1.Config{
 			ReplayNames: c.ReplayCalls(),
-			Alphabet: alpha,
-			Depth:    depth,
+			Alphabet:    alpha,
+			Depth:       depth,
 			New: func() *world.World {
 				w := world.New()
 				c01Envs.Store(w, &c01Env{m: refmodel.NewDB()})
